@@ -22,6 +22,7 @@ for d in /tmp/mut/C??/? /tmp/mut2/C??/? /tmp/mut3/C??/? /tmp/mut4/C??/? /tmp/mut
   [ "$id" = "C19-r2-3" ] && P=C15
   [ "$id" = "C08-r4-1" ] && P=C02
   [ "$id" = "C20-r9-2" ] && P=C17
+  [ "$id" = "C04-r10-3" ] && P=C15
   git -C $R diff --quiet || { echo "repo dirty"; exit 2; }
   git -C $R apply $d/patch.diff || { echo -e "$id\t$P\tpatch-does-not-apply" >> $OUT; continue; }
   bin/check $P quick > $d/final.$P.log 2>&1; rc=$?
